@@ -16,6 +16,16 @@ open WuffsVerif.StdHash WuffsVerif.Gen.C07
 theorem adler_chunk_len_ok : 0 < adlerChunkLen ∧ adlerChunkLen ≤ 5552 ∧ adlerModulus = 65521 := by
   decide
 
+/-- The SIMD variants (`hasher.up_x86_sse42`, `hasher.up_arm_neon`: not mirrored, compared with Go's hash/adler32
+    on every generated case) use their own chunk lengths; these are regenerated too and must stay within the bound
+    beyond which the u32 sums can wrap: after `n` bytes of 0xFF from `(s1, s2) = (65520, 65520)`,
+    `s2 = 65520 + 65520·n + 255·n·(n+1)/2`, which fits u32 for `n = 5552` and not for `n = 5553`. -/
+theorem adler_simd_chunk_le :
+    adlerSse42ChunkLen ≤ 5552 ∧ adlerNeonChunkLen ≤ 5552 ∧ 0 < adlerSse42ChunkLen ∧ 0 < adlerNeonChunkLen ∧
+    65520 + 65520 * 5552 + 255 * 5552 * 5553 / 2 < 4294967296 ∧
+    ¬ (65520 + 65520 * 5553 + 255 * 5553 * 5554 / 2 < 4294967296) := by
+  decide
+
 /-- **adler_up_eq_spec.** The chunked u32 loop of `hasher.up` (wrapping adds, one `%=` per
     ≤ 5552-byte chunk) equals the mathematical checksum (both sums reduced mod 65521 after
     every byte) for EVERY u32 state and EVERY byte string.  That no u32 add wraps inside a
